@@ -66,6 +66,15 @@ fn pick(rng: &mut SplitMix, n: usize, count: usize) -> Vec<usize> {
 }
 
 fn params(seed: u64, i: usize, j: usize) -> Params {
+    // Odd threads repeat one shape and loss pattern in every round (fresh data each
+    // round), so that anything cached per pattern and shared between threads is hit
+    // while other threads decode other patterns.
+    if i % 2 == 1 && j > 0 {
+        let mut p = params(seed, i, 0);
+        p.data_seed = SplitMix::new(p.data_seed ^ (j as u64).wrapping_mul(0xD6E8_FEB8_6659_FD93)).next();
+        p.moved = j % 2 == 1;
+        return p;
+    }
     let mut rng = SplitMix::new(
         seed.wrapping_mul(0x0000_0100_0000_01B3)
             ^ ((i as u64) << 40)
